@@ -91,7 +91,7 @@ func cmdShut(args []string) error {
 		return err
 	}
 	ctl := NewController()
-	ctl.enabled = map[string]bool{"op.start": true, "post.before": true, "exp.fire": true, "exp.locked": true,
+	ctl.enabled = map[string]bool{"op.start": true, "post.before": true, "exp.fire": true, "exp.locked": true, "exp.done": true,
 		"closedelete.enter": true, "closedelete.locked": true, "close.unregistered": true, "open.cachemiss": true, "open.beforeregister": true, "view.updateafter": true}
 	ctl.BlockTimeout = 40 * time.Millisecond
 	opening := has("open1") || has("open2")
